@@ -85,7 +85,7 @@ def hdc_case(draw, tier, dims=(2, 2, 2, 3), bimodal=False):
             case["mode"] = "explicit"
     # an all-integer grid (limits and cell sizes handed over as Python ints, e.g. limits=[(0, 20), (0, 20)], deltas=[1, 1]):
     # seeded change C02e (a buffer of the grid's dtype truncates the cell probabilities). Only where every axis keeps >= 10 cells.
-    if case["mode"] == "explicit" and draw(st.integers(0, 3)) == 0 and min(uppers) >= 10.0:
+    if case["mode"] == "explicit" and draw(st.integers(0, 1)) == 0 and min(uppers) >= 10.0:
         ilims = [[0, int(math.ceil(u))] for u in uppers]
         if np.isscalar(case["deltas"]):
             idel = max(1, int(round(case["deltas"])))
